@@ -88,7 +88,7 @@ Ltac inl := cbn [In]; auto 10.
 (** * Per-method parsing of the abstract request *)
 
 Lemma parse_unknown root r :
-  known_method (meth r) = false -> parse_req root r = ARefused 405.
+  known_method (meth r) = false -> parse_req root r = ARefused (unsupported_code r).
 Proof. intros H. unfold parse_req. rewrite H. reflexivity. Qed.
 
 Lemma parse_options root r : meth r = "OPTIONS"%string ->
@@ -344,9 +344,11 @@ Proof.
   intros Hk. unfold refines. rewrite (parse_unknown _ _ Hk).
   unfold known_method in Hk. cbn [existsb] in Hk.
   repeat (apply Bool.orb_false_iff in Hk; destruct Hk as [? Hk]).
-  unfold serve.
+  unfold serve, unsupported_code.
   repeat match goal with H : String.eqb (meth r) _ = false |- _ => rewrite H; clear H end.
-  cbn. auto.
+  cbn [orb]. destruct (String.eqb (meth r) "PROPPATCH").
+  - unfold do_proppatch. destruct (pf r); cbn; auto.
+  - cbn. auto.
 Qed.
 
 (** * COPY and MOVE *)
